@@ -188,6 +188,7 @@ pub(super) fn optimize(
     &only_relevant_induction_loop_variables.immediate,
     &optimizable_while_loop.basic_induction_variable_with_loop_guard.guard_expression,
     &optimizable_while_loop.basic_induction_variable_with_loop_guard.initial_value,
+    &optimizable_while_loop.basic_induction_variable_with_loop_guard.increment_amount,
   );
 
   Some(LoopInductionVariableEliminationResult {
@@ -199,15 +200,15 @@ pub(super) fn optimize(
 
 /// Verification hook (only with `--cfg samlang_verif`): a log of the eliminations performed, as
 /// (guard operator of the replaced guard: 0 LT, 1 LE, 2 GT, 3 GE; then the multiplier, the
-/// immediate, the guard bound and the initial value of the induction variable, each if it is a
-/// constant).
+/// immediate, the guard bound, the initial value and the increment of the induction variable,
+/// each if it is a constant).
 #[cfg(samlang_verif)]
 pub(crate) mod verif {
   use super::super::loop_induction_analysis::{GuardOperator, PotentialLoopInvariantExpression};
   use samlang_ast::mir::Expression;
   use std::sync::Mutex;
 
-  pub type Entry = (u8, Option<i32>, Option<i32>, Option<i32>, Option<i32>);
+  pub type Entry = (u8, Option<i32>, Option<i32>, Option<i32>, Option<i32>, Option<i32>);
 
   pub(crate) static LOG: Mutex<Vec<Entry>> = Mutex::new(Vec::new());
 
@@ -224,6 +225,7 @@ pub(crate) mod verif {
     immediate: &PotentialLoopInvariantExpression,
     guard: &PotentialLoopInvariantExpression,
     initial_value: &Expression,
+    increment: &PotentialLoopInvariantExpression,
   ) {
     let op = match op {
       GuardOperator::LT => 0,
@@ -241,6 +243,7 @@ pub(crate) mod verif {
       constant(immediate),
       constant(guard),
       initial,
+      constant(increment),
     ));
   }
 }
